@@ -136,6 +136,19 @@ Hops(x, n, key, fuel) ==
 InvHopBound == RingCorrect(s) => \A n \in Members(s), key \in 0..(M - 1) : Hops(s, n, key, 20) <= Cardinality(Members(s))
 
 InvTerminates == Terminates(s)
+(* coverage goals (checks/c09.py): states in which a lookup asked at a node of the given lifecycle state reaches the branch
+   "no finger precedes the key" (Closest = the node itself).  TLC's shortest path to such a state is a directed scenario:
+   it is replayed on real nodes and followed by lookups from every live node for every position. *)
+SelfFwd(x, n, key) ==
+  /\ Live(x, n)
+  /\ ~(x.pred[n] # Nil /\ PB(x.lay, x.pred[n], key, n, TRUE))
+  /\ Hd(x, n) # Nil /\ ~PB(x.lay, n, key, Hd(x, n), TRUE)
+  /\ Closest(x, n, key) = n
+NoSelfFwdIn(st) == ~(\E n \in NodesOf(s.lay), key \in 0..(M - 1) : s.st[n] = st /\ SelfFwd(s, n, key))
+InvNoSelfFwdActive == NoSelfFwdIn("Active")
+InvNoSelfFwdJoining == NoSelfFwdIn("Joining")
+InvNoSelfFwdTransferring == NoSelfFwdIn("Transferring")
+InvNoSelfFwdLeaving == NoSelfFwdIn("Leaving")
 InvLookupCorrect == LookupCorrect(s)
 ChurnDone == \A n \in NodesOf(s.lay) : (n \in Joiners => s.jpc[n] \in {"done", "failed"}) /\ (n \in Leavers => s.lpc[n] \in {"done", "failed"})
 Converges == <>[](ChurnDone /\ RingCorrect(s))
